@@ -3,7 +3,7 @@
 # undoes the change, and records the outcome in seeded/<id>/meta.json under "builder_run".
 cd "$(dirname "$0")/.."
 for d in seeded/C*; do
-  p=$(basename $d)
+  p=$(python3 -c "import json,sys; print(json.load(open('$d/meta.json'))['property'])")
   out=$(run/seeded_eval.sh /verif/$d/patch.diff $p ${1:-quick} 2>&1)
   echo "== $p"; echo "$out" | head -4 | cut -c1-260
   python3 - "$d" "$p" "$out" <<'PY'
